@@ -54,6 +54,7 @@ func propHDL(c Case) pbt.Outcome {
 	var sent []uint64
 	recv := make([][]uint64, len(c.Consumers))
 	d4, d12 := false, false
+	sameOffer := make([]bool, len(c.Consumers))
 	var fail *pbt.Failure
 	cycles := 3 * c.Ticks
 	for cyc := 0; cyc < cycles && fail == nil; cyc++ {
@@ -64,8 +65,11 @@ func propHDL(c Case) pbt.Outcome {
 		prePcC := make([]int, len(c.Consumers))
 		for i := range c.Consumers {
 			prePcC[i] = int(r.Sim.Get(sig(i+1, "_pc")))
-			if prePcC[i] == consR[i] && r.Sim.Get(sig(i+1, "i0_recv")) == 1 && r.Sim.Get(sig(i+1, "i0_valid")) == 1 {
-				d4 = true // i2rw reads while its own received flag of the previous read is still up
+			if r.Sim.Get(sig(i+1, "i0_valid")) == 0 {
+				sameOffer[i] = false
+			}
+			if prePcC[i] == consR[i] && r.Sim.Get(sig(i+1, "i0_recv")) == 1 && r.Sim.Get(sig(i+1, "i0_valid")) == 1 && sameOffer[i] {
+				d4 = true // i2rw captures the same offer again (own received flag still up, valid never fell)
 			}
 		}
 		if err := r.Step(); err != nil {
@@ -74,6 +78,7 @@ func propHDL(c Case) pbt.Outcome {
 		for i := range c.Consumers {
 			if prePcC[i] == consR[i] && int(r.Sim.Get(sig(i+1, "_pc"))) == consR[i]+1 {
 				recv[i] = append(recv[i], r.Sim.Get(sig(i+1, "_r0")))
+				sameOffer[i] = true
 			}
 		}
 		if reg, atW := prodW[prePcP]; atW && int(r.Sim.Get(sig(0, "_pc"))) == prePcP+1 {
